@@ -33,6 +33,10 @@ CHECKS = {
          "exhaustive small-scope enumeration of syntactically valid ClientHellos x key sets x following record streams; byte-identity oracle plus crypto/tls as independent SNI/ALPN extractor",
          "Every ordered selection of up to 3 (thorough: 4) extensions from a 12-item pool x legacy versions x session ids x cipher-suite lists x compression lists x key sets {none, unrelated, same id}, plus 'no extensions block', plus all record sequences up to depth 3 (4) after the hello and backend->client writes, are run through the real Conn; forwarded bytes must equal the client's bytes (record-header version excepted) and ServerName/ALPN must equal what crypto/tls extracts.",
          "crypto/tls as independent extractor; SNI name_type 0 only, ALPN names non-empty", "§3 C05"),
+ "C09": ("exploration", "E1 enum",
+         "exhaustive differential enumeration of key lists: outcome(list) compared with outcome([T]) / outcome(no relevant key) for first and retried hellos",
+         "All ordered key lists of length 0..4 (thorough; quick: all of length <=3 plus the length-4 lists mixing T with same-id keys) over a pool with same-id/same-suite, same-id/disjoint-suite, same-id/other-public-name and other-id keys x 3 AEADs x first/retried hello x hello encrypted to a held/unheld key are run on the real Conn; the outcome (acceptance, error class, forwarded bytes, alert bytes) must be identical to the reference list's.",
+         "reference sender validated against crypto/tls; all listed keys are valid", "§3 C09"),
 }
 
 NOT_YET = {}
